@@ -15,7 +15,12 @@ Feat(v) == [ns |-> v.ns, nlayers |-> Len(v.layers), shared |-> Shared(v), hasres
             has_empty_stream |-> (Len(v.layers) > 0 /\ \E s \in 0..(v.ns - 1) : Mask(v, s) = 0)]
 ValidCase(n, m, res) ==
   LET v == MkVLA(n, SubsetOf(m, n), m % 97, res) IN
-  [fam |-> "C19", kind |-> "valid", v |-> v, bytes |-> EncVLA(v), prev |-> EncVLA(MkVLA(2, {0, 5, 6}, 3, TRUE)),
+  \* what the reused receiver decoded before: a fixed rich value, or a SIBLING of v (same layout) with the resolution
+  \* records toggled, or with other rates and resolutions
+  [fam |-> "C19", kind |-> "valid", v |-> v, bytes |-> EncVLA(v),
+   prev |-> IF m = 0 \/ m % 3 = 0 THEN EncVLA(MkVLA(2, {0, 5, 6}, 3, TRUE))
+            ELSE IF m % 3 = 1 THEN EncVLA(MkVLA(n, SubsetOf(m, n), m % 97, ~res))
+            ELSE EncVLA(MkVLA(n, SubsetOf(m, n), (m % 97) + 4, TRUE)),
    class |-> Class(v), tags |-> Feat(v)]
 ValidSeq(n) == LET ms == SetToSeq(Subs(n)) IN
   [k \in 1..(2 * Len(ms)) |-> ValidCase(n, ms[((k - 1) \div 2) + 1], k % 2 = 0 /\ ms[((k - 1) \div 2) + 1] # 0)]
